@@ -14,7 +14,7 @@ EXTENDS Integers, Sequences, FiniteSets, TLC
 
 \* ---- parameter shapes (each is concretised by harness/src/bin/c15.rs: fn concretise)
 OpenOkArgs  == {"ok", "ok_sort", "ok_nocollect", "ok_onepass", "ok_plugins", "ok_zip", "ok_huge", "ok_huge_onepass",
-                "zip_glob_all", "zip_glob_some"}
+                "zip_glob_all", "zip_glob_some", "ok_plugins_dup"}      \* _dup: every plugin configured twice under the same name
 \* archive opens whose extraction (asynchronous, after the reply) finds nothing: inner glob without match, archive
 \* without DLT file, file named like an archive that is none.  The statement fixes no polarity for the open itself
 \* (today ok:, the code carries a todo to report an error) - but every later command must be answered.
@@ -30,7 +30,7 @@ ChangeBadArgs == {"noarg", "nocomma"}
 BsearchArgs   == {"time", "time_garbage", "index_found", "index_garbage", "index_missing", "badkey", "nokey", "noarg"}
 SearchOkArgs  == {"ok", "ok_defaults", "ok_nomatch"}
 SearchBadArgs == {"noarg", "badjson", "startwrongtype", "maxwrongtype", "filterswrongtype", "badfilter"}
-PluginArgs    == {"noarg", "badjson", "notobject", "nocmd", "noname", "noplugin", "ft_cmd"}
+PluginArgs    == {"noarg", "badjson", "notobject", "nocmd", "noname", "noplugin", "ft_cmd", "rw_cmd"}   \* rw_cmd: a plugin without commands
 FsOkArgs      == {"stat_ok", "readdir_ok", "zip_readdir", "zip_stat"}
 FsFakeArgs    == {"fakezip_readdir", "fakezip_stat"}
 FsBadArgs     == {"noarg", "badjson", "notobject", "nocmd", "nopath", "unknowncmd", "stat_missing", "readdir_missing",
@@ -41,7 +41,7 @@ PlainArgs     == {"", "junk"}                  \* close / pause / resume / stop 
 TargetVerbs == {"stop", "stream_change_window", "stream_binary_search", "stream_search"}
 
 FileModeOf(arg) == CASE arg = "ok_nocollect" -> "nocollect" [] arg \in OnePassOpenArgs -> "onepass" [] OTHER -> "all"
-HasPlugin(arg) == arg = "ok_plugins"
+HasPlugin(arg) == arg \in {"ok_plugins", "ok_plugins_dup"}
 Both == {"ok", "err"}
 
 (* file: "none" | "all" | "nocollect" | "onepass";  plug: a plugin with commands is active;  res: a resume was
